@@ -338,6 +338,8 @@ PROPS["C14"] = dict(
     trusted=["C14: real time, kernel socket behaviour, TLS, net/http (DoH) and goroutine scheduling are sampled by the "
              "fault scripts, not modelled"],
     level_note="partial: the theorems cover the retry/select logic of one exchange at atomic-action granularity "
-               "against an adversarial environment; wall-clock deadlines, kernel buffering and scheduling are only "
-               "sampled by the fault scripts",
+               "against an adversarial environment, the mutex discipline of one pipelined connection (never left locked, "
+               "no deadlock, second close is a no-op) and the shared dialing call of QuicTransport (a finished call is "
+               "never joined, a failed dial is followed by a new one); wall-clock deadlines, kernel buffering and "
+               "scheduling are only sampled by the fault and outage scripts",
 )
